@@ -154,7 +154,54 @@ class _Temporaries(ast.NodeTransformer):
         return node
 
 
+class _Keywordise(ast.NodeTransformer):
+    """f(a, b) -> f(x=a, y=b) for calls by bare name to functions defined in the same package (signature known)."""
+
+    def __init__(self, sigs):
+        self.sigs = sigs
+
+    def visit_Call(self, n):
+        self.generic_visit(n)
+        if isinstance(n.func, ast.Name) and n.func.id in self.sigs and n.args and not any(isinstance(a, ast.Starred) for a in n.args):
+            params = self.sigs[n.func.id]
+            if len(n.args) <= len(params):
+                given = {k.arg for k in n.keywords}
+                new_kw = []
+                for p_, a in zip(params, n.args):
+                    if p_ in given:
+                        return n
+                    new_kw.append(ast.keyword(arg=p_, value=a))
+                n.keywords = new_kw + n.keywords
+                n.args = []
+        return n
+
+
+class _DeMorgan(ast.NodeTransformer):
+    """not (a == b) <-> a != b is left alone; `a != b` -> `not a == b`, `x is not None` -> `not x is None`"""
+
+    def visit_Compare(self, n):
+        self.generic_visit(n)
+        if len(n.ops) == 1 and isinstance(n.ops[0], ast.NotEq):
+            return ast.UnaryOp(op=ast.Not(), operand=ast.Compare(left=n.left, ops=[ast.Eq()], comparators=n.comparators))
+        if len(n.ops) == 1 and isinstance(n.ops[0], ast.IsNot):
+            return ast.UnaryOp(op=ast.Not(), operand=ast.Compare(left=n.left, ops=[ast.Is()], comparators=n.comparators))
+        if len(n.ops) == 1 and isinstance(n.ops[0], ast.NotIn):
+            return ast.UnaryOp(op=ast.Not(), operand=ast.Compare(left=n.left, ops=[ast.In()], comparators=n.comparators))
+        return n
+
+
+_PACKAGE_SIGS = {}
+
+
 def _transform_tree(kind, tree):
+    if kind == "keyword-args":
+        tree = _Keywordise(_PACKAGE_SIGS).visit(tree)
+        ast.fix_missing_locations(tree)
+        return tree
+    if kind == "negated-compare":
+        tree = _DeMorgan().visit(tree)
+        ast.fix_missing_locations(tree)
+        return tree
     if kind == "invert-if":
         tree = _InvertIf().visit(tree)
         ast.fix_missing_locations(tree)
@@ -187,7 +234,7 @@ def _transform_tree(kind, tree):
     return tree
 
 
-GLOBAL_BENIGN = ("reformat", "rename-locals", "invert-if", "range-aug", "temporaries")
+GLOBAL_BENIGN = ("reformat", "rename-locals", "invert-if", "range-aug", "temporaries", "keyword-args", "negated-compare")
 
 
 def run_global_benign(args):
@@ -203,6 +250,15 @@ def run_global_benign(args):
         src = os.path.join(repo_root, PACKAGE)
         dst = os.path.join(d, PACKAGE)
         shutil.copytree(src, dst, ignore=shutil.ignore_patterns("tests", "__pycache__", "*.pyc"))
+        if kind == "keyword-args":
+            _PACKAGE_SIGS.clear()
+            for f in os.listdir(dst):
+                if f.endswith(".py"):
+                    with open(os.path.join(dst, f)) as fh:
+                        t0 = ast.parse(fh.read())
+                    for st in t0.body:
+                        if isinstance(st, ast.FunctionDef) and not st.args.vararg:
+                            _PACKAGE_SIGS[st.name] = [a.arg for a in st.args.posonlyargs + st.args.args]
         for f in os.listdir(dst):
             if f.endswith(".py"):
                 p = os.path.join(dst, f)
